@@ -1,6 +1,7 @@
 """C17 — symbol lookup paths derived from module names stay inside the symbol directories."""
 import itertools
 
+import vlib
 from runner import PropBase
 from vlib import Rng
 
@@ -51,7 +52,8 @@ class C17(PropBase):
         "five builders, moz_lookup, lookup); tied to the code by the correspondence run on the public builders",
         "Path::join modelled from std's PathBuf::push (unix exactly; windows for the cases that matter: drive / double-separator "
         "/ rooted arguments); the POSIX join is additionally executed for real on every produced path by the harness; "
-        "URL joining is modelled as concatenation (Url::join's reference resolution is NOT modelled, see design/C17.md)",
+        "URL joining is modelled as concatenation; the real Url::join (behind http.rs join_rel) is only exercised end to end by the "
+        "url probe (HttpSymbolSupplier::locate_symbols against a recording loopback server), see design/C17.md",
         "str::to_lowercase modelled as ASCII lowering when compared with 'pdb'/'dll' (the only non-ASCII char lowering to ASCII is U+212A -> k)",
         "ids: the theorems assume hex-only id text; the harness observes that DebugId::breakpad() and CodeId render hex only",
         "extraction: ExtrOcamlBasic only; ocaml/zconv.ml + ocaml/c17/main.ml glue; harness/src/bin/c17.rs",
@@ -65,11 +67,13 @@ class C17(PropBase):
                 "and random (code_file, debug_file, ids) cases in debug and release builds; an independent oracle re-checks the three "
                 "conditions and a real std::path join on the implementation's answers.",
         "note": "Trusted: Coq kernel; hand-written model of lib.rs (correspondence-checked, not verified); Path::join semantics from "
-                "std's source (Windows rules cannot be executed here); URL joining as concatenation, not Url::join; ASCII lowering. No axioms.",
+                "std's source (Windows rules cannot be executed here); URL joining proved for concatenation only — Url::join is exercised by an "
+                "end-to-end probe, not modelled; ASCII lowering. No axioms.",
     }
     assumptions = ["module strings are valid UTF-8 (they are Rust `str`); bytes >= 128 are never separators",
                    "debug/code id text is hex-only (observed on every case through the real constructors, not proved about debugid)",
-                   "Url::join (WHATWG reference resolution: schemes, percent-encoded dots, stripped tabs) is not modelled; see design/C17.md"]
+                   "Url::join (WHATWG reference resolution: schemes, percent-encoded dots, stripped tabs) and http.rs join_rel are not modelled in Coq; "
+                   "they are exercised by the url probe on ~190 hostile/random names per build"]
 
     # ------------------------------------------------------------------ cases
     def gen_cases(self, tier, seed):
@@ -161,6 +165,61 @@ class C17(PropBase):
         if not is_hex_text(unhx(a)) or not is_hex_text(unhx(b)):
             return "an identifier rendered with non-hex characters: %r %r" % (unhx(a), unhx(b))
         return None
+
+    # ------------------------------------------------------------------ end-to-end URL probe (not modelled)
+    URL_LEAVES = ["a.pdb", "http:x", "https:x.pdb", "ab:c.pdb", "%2e%2e", ".%2e", "%2E%2e", "\t", " x", "x ", ".\t.", "\n..", ".\r.",
+                  "a?b", "a#b", "a b+c.pdb", "libstdc++.so.6", "\u00e9.pdb", "javascript:x", "1:x", "a%2fb", "%5c", "\x7f", "\x01.", "..\t",
+                  "file:x", "x:/y", "?", "#", "%", "~", "a;b=c", "@", "&", "[", "]", "{", "|", "^", "`", "\"", "<", ">", ".", "..."]
+
+    def url_cases(self, seed):
+        rng = Rng(seed + 17)
+        ident = hx("5A9832E5287241C1838ED98914E9B7FF1")
+        cases = ["%s %s %s %s" % (hx("k.dll"), hx(l), ident, hx("5a")) for l in self.URL_LEAVES]
+        cases += ["%s N %s %s" % (hx(l), "N", hx("5a")) for l in self.URL_LEAVES[:25]]      # code-info lookup path
+        atoms = ["a", ".", "%", "2", "e", "E", ":", "?", "#", "\t", " ", "\n", "\\"[0], "http", "x", "\u00e9", "+", "-"]
+        for _ in range(120):
+            l = "".join(rng.choice(atoms) for _ in range(rng.range(1, 6)))
+            cases.append("%s %s %s %s" % (hx("k.dll"), hx(l), ident, hx("5a")))
+        return cases
+
+    def extra(self, ctx):
+        """HttpSymbolSupplier::locate_symbols against a loopback server that records every request:
+        whenever a lookup path exists, the request must arrive, below the base URL's path."""
+        if ctx.get("replay"):
+            cases = [c for c in ctx["cases"] if c]
+        else:
+            cases = self.url_cases(ctx["seed"])
+        out = []
+        n_req = 0
+        for prof in self.profiles:
+            exe = ctx["exes"][("c17", prof)]
+            ans, dead = vlib.run_lines([exe, "--url-probe"], cases, timeout=300, mem_gb=8, shards=4)
+            for idx, why in dead:
+                out.append({"case": cases[idx], "profile": prof, "found_input": True,
+                            "what": "url probe: implementation child died or hung on this case (%s)" % why})
+            for c, a in zip(cases, ans):
+                if a is None:
+                    continue
+                if a.startswith("P;;"):
+                    out.append({"case": c, "profile": prof, "found_input": True, "what": "url probe panicked: " + a[3:200]})
+                    continue
+                _, rel, reqs = a.split("|")
+                targets = [unhx(r).decode("utf-8", "replace") for r in reqs.split(",")] if reqs else []
+                n_req += len(targets)
+                for t in targets:
+                    path = t.split("?", 1)[0]
+                    segs = path.split("/")
+                    if not path.startswith("/root/") or ".." in segs:
+                        out.append({"case": c, "profile": prof, "found_input": True,
+                                    "what": "url probe: server_rel %r was requested as %r, outside the server root /root/" % (
+                                        unhx(rel).decode("utf-8", "replace") if rel != "N" else None, t)})
+                if rel != "N" and not targets:
+                    out.append({"case": c, "profile": prof, "found_input": True,
+                                "what": "url probe: server_rel %r produced no request to the configured server (the URL resolved elsewhere)"
+                                        % unhx(rel).decode("utf-8", "replace")})
+        ctx["info"]["url_probe_cases"] = len(cases) * len(self.profiles)
+        ctx["info"]["url_probe_requests_observed"] = n_req
+        return out
 
     def nontrivial(self, case, ans):
         return any(f not in ("N", "P") for f in ans.split("|", 1)[0].split(";"))
